@@ -113,7 +113,7 @@ fn gen_trigger_rule(rng: &mut Rng, id: &str) -> Value {
         2 => json!([{"type": "contains", "name": "X-B", "value": "é"}]),
         _ => Value::Null };
     let ips: Value = match rng.below(9) { 0 => json!([{"in_range": "10.0.0.0/8"}]), 1 => json!([{"not_in_range": "192.168.1.0/24"}]), 2 => json!([{"in_range": "2001:db8::/32"}]), _ => Value::Null };
-    let datetime: Value = match rng.below(8) { 0 => json!([["2020-01-01T00:00:00Z", "2024-06-01T12:00:00Z"]]), 1 => json!([["2024-06-01T12:00:00Z", null]]), _ => Value::Null };
+    let datetime: Value = match rng.below(8) { 0 => json!([["2020-01-01T00:00:00Z", "2024-06-01T12:00:00Z"]]), 1 => json!([["2024-06-01T12:00:00Z", null]]), 2 => json!([["2024-06-01T11:59:59.5Z", null]]), 3 => json!([[null, "2021-03-04T03:06:07.25Z"]]), _ => Value::Null };
     let path = *rng.pick(&["/x", "/x", "/x", "/x?a=1&b=2", "/X", "/y z"]);
     json!({"id": id, "rank": rng.below(3), "status_code": 301, "target": "/t",
            "source": {"path": path, "host": host, "scheme": match rng.below(8) { 0 => json!("https"), 1 => json!("http"), _ => Value::Null },
@@ -129,7 +129,7 @@ pub fn generate(seed: u64, thorough: bool) -> Vec<Value> {
         let mut ids: Vec<&str> = IDS.to_vec();
         let mut rules = Vec::new();
         for _ in 0..k { let i = rng.below(ids.len()); let id = ids.remove(i); rules.push(gen_rule(&mut rng, id)); }
-        out.push(json!({"kind": "action", "rules": rules, "skipped": if rng.chance(1, 4) { json!("utm_source=x&é=\"") } else { Value::Null },
+        out.push(json!({"kind": "action", "rules": rules, "applied_code": match rng.below(4) { 0 => json!(0), 1 => json!(404), 2 => json!(200), _ => Value::Null }, "skipped": if rng.chance(1, 4) { json!("utm_source=x&é=\"") } else { Value::Null },
                         "override": match rng.below(5) { 0 => json!(true), 1 => json!(false), _ => Value::Null }}));
     }
     let m = if thorough { 4000 } else { 300 };
@@ -161,6 +161,7 @@ fn obs_action(a: &Action) -> Value {
     ];
     let bodies: Vec<&[u8]> = vec![b"<html><head></head><body><p>x</p><em class=\"mark\">m</em></body></html>", b"", b"plain \xff text"];
     let mut out = Vec::new();
+    out.push(json!(["applied-at-hand-over", a.get_applied_rule_ids().iter().cloned().collect::<Vec<String>>()]));
     for code in [0u16, 200, 301, 404, 500, 503] {
         for hs in &panels {
             for add_ids in [false, true] {
@@ -197,7 +198,15 @@ pub fn run_case(id: usize, input: &Value) {
             request.path_and_query_skipped.skipped_query_params = inp["skipped"].as_str().map(|s| s.to_string());
             let config = RouterConfig::default();
             let routes: Vec<Arc<Route<Rule>>> = inp["rules"].as_array().unwrap().iter().map(|r| { let rule: Rule = serde_json::from_value(r.clone()).expect("rule json"); Arc::new(rule.into_route(&config)) }).collect();
-            let action = Action::from_routes_rule(routes, &request, None);
+            let mut action = Action::from_routes_rule(routes, &request, None);
+            // half of the actions are handed over AFTER the proxy applied them for a response code (rules_applied filled)
+            if let Some(code) = inp["applied_code"].as_u64() {
+                let code = code as u16;
+                action.get_status_code(code, None);
+                let hs = action.filter_headers(vec![Header { name: "X-A".into(), value: "0".into() }], code, true, None);
+                let _ = action.create_filter_body(code, &hs);
+                action.should_log_request(true, code, None);
+            }
             let text = serde_json::to_string(&action).unwrap();
             let back: Result<Action, _> = serde_json::from_str(&text);
             match back {
